@@ -51,43 +51,82 @@ fn payload(fmt: &str, c: (u8, u32, u32)) -> Vec<u8> {
 struct SourceDef {
 	id: String,
 	container: &'static str,
+	/// compression the container DECLARES (header / file extension / mbtiles format row)
 	comp: TileCompression,
+	/// encoding the stored tile bytes really have; differs from `comp` only for the mislabelled sources that
+	/// are served with `--override-input-compression <actual>`
+	actual: TileCompression,
 	fmt: &'static str,
 	path: PathBuf,
 }
+impl SourceDef {
+	fn mislabelled(&self) -> bool {
+		self.comp != self.actual
+	}
+}
 
 fn source_defs(dir: &PathBuf, thorough: bool) -> Vec<SourceDef> {
-	let mut v = vec![];
+	use TileCompression::*;
+	let mut v: Vec<(&'static str, TileCompression, TileCompression, &'static str)> = vec![];
 	for container in ["versatiles", "pmtiles"] {
 		for comp in COMPS {
 			for fmt in ["pbf", "png"] {
-				v.push((container, comp, fmt));
+				v.push((container, comp, comp, fmt));
 			}
 		}
 	}
-	v.push(("mbtiles", TileCompression::Gzip, "pbf"));
-	v.push(("mbtiles", TileCompression::Uncompressed, "png"));
-	// the other media types (incompressible rule is keyed by MIME)
-	for fmt in ["jpg", "webp", "avif", "svg", "json", "geojson", "topojson", "bin"] {
-		v.push(("versatiles", TileCompression::Uncompressed, fmt));
-		if thorough || fmt == "avif" || fmt == "svg" {
-			v.push(("versatiles", TileCompression::Gzip, fmt));
-			v.push(("versatiles", TileCompression::Brotli, fmt));
+	for container in ["tar", "directory"] {
+		for comp in COMPS {
+			v.push((container, comp, comp, "pbf"));
 		}
 	}
+	v.push(("mbtiles", Gzip, Gzip, "pbf"));
+	v.push(("mbtiles", Uncompressed, Uncompressed, "png"));
+	// the other media types (incompressible rule is keyed by MIME)
+	for fmt in ["jpg", "webp", "avif", "svg", "json", "geojson", "topojson", "bin"] {
+		v.push(("versatiles", Uncompressed, Uncompressed, fmt));
+		if thorough || fmt == "avif" || fmt == "svg" {
+			v.push(("versatiles", Gzip, Gzip, fmt));
+			v.push(("versatiles", Brotli, Brotli, fmt));
+		}
+	}
+	// mislabelled sources: the stored bytes are encoded differently from what the container declares
+	// (e.g. gzip'ed `z/x/y.pbf` files in a directory or tar); served only with `--override-input-compression`
+	for container in ["versatiles", "pmtiles", "tar", "directory"] {
+		for declared in COMPS {
+			for actual in COMPS {
+				if declared != actual {
+					v.push((container, declared, actual, "pbf"));
+				}
+			}
+		}
+	}
+	v.push(("versatiles", Uncompressed, Gzip, "png"));
+	v.push(("directory", Gzip, Uncompressed, "png"));
+	v.push(("mbtiles", Gzip, Uncompressed, "pbf"));
+	v.push(("mbtiles", Gzip, Brotli, "pbf"));
+	v.push(("mbtiles", Uncompressed, Gzip, "png"));
 	v.into_iter()
-		.map(|(container, comp, fmt)| {
-			let id = format!("{}_{}_{}", &container[..1], cname(comp), fmt);
-			SourceDef { path: dir.join(format!("{id}.{container}")), id, container, comp, fmt }
+		.map(|(container, comp, actual, fmt)| {
+			let id = if comp == actual {
+				format!("{}_{}_{}", &container[..1], cname(comp), fmt)
+			} else {
+				format!("{}_{}_{}_really_{}", &container[..1], cname(comp), fmt, cname(actual))
+			};
+			let path = if container == "directory" { dir.join(format!("{id}_dir")) } else { dir.join(format!("{id}.{container}")) };
+			SourceDef { path, id, container, comp, actual, fmt }
 		})
 		.collect()
 }
 
 fn write_sources(defs: &[SourceDef], rt: &tokio::runtime::Runtime) {
 	for d in defs {
-		let tiles: Vec<((u8, u32, u32), Vec<u8>)> = TILES.iter().map(|c| (*c, indep_enc(d.comp, &payload(d.fmt, *c)))).collect();
+		let tiles: Vec<((u8, u32, u32), Vec<u8>)> = TILES.iter().map(|c| (*c, indep_enc(d.actual, &payload(d.fmt, *c)))).collect();
 		let tj = TileJSON::try_from("{\"tilejson\":\"3.0.0\",\"name\":\"c05\"}").unwrap();
 		let mut reader = MemReader::new(parse_format(d.fmt), d.comp, tj, &tiles);
+		if d.container == "directory" {
+			std::fs::create_dir_all(&d.path).unwrap();
+		}
 		rt.block_on(write_to_filename(&mut reader, d.path.to_str().unwrap())).unwrap_or_else(|e| panic!("cannot write {:?}: {e:#}", d.path));
 	}
 }
@@ -100,6 +139,33 @@ struct Server {
 	port: u16,
 	fast: bool,
 	flip: bool,
+	swap: bool,
+	/// `--override-input-compression`
+	ovr: Option<TileCompression>,
+	/// the sources this instance serves
+	defs: Vec<SourceDef>,
+}
+impl Server {
+	fn mode(&self) -> String {
+		let mut m: Vec<String> = vec![];
+		if self.fast {
+			m.push("fast".into());
+		}
+		if self.flip {
+			m.push("flip".into());
+		}
+		if self.swap {
+			m.push("swap".into());
+		}
+		if let Some(o) = self.ovr {
+			m.push(format!("override-{}", cname(o)));
+		}
+		if m.is_empty() {
+			"best".into()
+		} else {
+			m.join("+")
+		}
+	}
 }
 impl Drop for Server {
 	fn drop(&mut self) {
@@ -113,7 +179,7 @@ fn free_port() -> u16 {
 	l.local_addr().unwrap().port()
 }
 
-fn start_server(bin: &str, defs: &[SourceDef], fast: bool, flip: bool, logdir: &PathBuf) -> Server {
+fn start_server(bin: &str, defs: &[SourceDef], fast: bool, flip: bool, swap: bool, ovr: Option<TileCompression>, logdir: &PathBuf) -> Server {
 	for attempt in 0..5 {
 		let port = free_port();
 		let mut cmd = Command::new(bin);
@@ -124,13 +190,23 @@ fn start_server(bin: &str, defs: &[SourceDef], fast: bool, flip: bool, logdir: &
 		if flip {
 			cmd.arg("--flip-y");
 		}
+		if swap {
+			cmd.arg("--swap-xy");
+		}
+		if let Some(o) = ovr {
+			cmd.arg("--override-input-compression").arg(match o {
+				TileCompression::Uncompressed => "uncompressed",
+				TileCompression::Gzip => "gzip",
+				TileCompression::Brotli => "brotli",
+			});
+		}
 		for d in defs {
 			cmd.arg(format!("{}[{}]", d.path.to_str().unwrap(), d.id));
 		}
 		let log = std::fs::File::create(logdir.join(format!("server_{port}.log"))).unwrap();
 		cmd.stdin(Stdio::null()).stdout(Stdio::null()).stderr(Stdio::from(log));
 		let child = cmd.spawn().expect("cannot start the versatiles binary (VTH_BIN)");
-		let mut srv = Server { child, port, fast, flip };
+		let mut srv = Server { child, port, fast, flip, swap, ovr, defs: defs.to_vec() };
 		let t0 = Instant::now();
 		let mut up = false;
 		while t0.elapsed() < Duration::from_secs(20) {
@@ -405,10 +481,12 @@ fn hex_or_tilde(s: &Option<String>) -> String {
 
 fn do_request(out: &mut Out, cx: &Ctx, srv: &Server, d: &SourceDef, rest: &str, accept: &Option<String>, expect: Option<(Expect, Vec<String>)>, class: &str) {
 	let line = format!(
-		"C05 req {} {} {} {} {} {} {}",
+		"C05 req2 {} {} {} {} {} {} {} {} {}",
 		srv.fast as u8,
 		srv.flip as u8,
+		srv.swap as u8,
 		cname(d.comp),
+		srv.ovr.map_or("-", cname),
 		d.fmt,
 		tiles_str(),
 		hex_or_tilde(accept),
@@ -417,8 +495,11 @@ fn do_request(out: &mut Out, cx: &Ctx, srv: &Server, d: &SourceDef, rest: &str, 
 	let _ = cx;
 	let target = format!("/tiles/{}/{}", d.id, rest);
 	let resp = http_get(srv.port, &target, accept.as_deref());
-	let mode = if srv.flip { "flip" } else if srv.fast { "fast" } else { "best" };
-	let sig = |kind: &str| json!({"kind": kind, "class": class, "container": d.container, "mode": mode});
+	let mode = srv.mode();
+	let mode = mode.as_str();
+	// what the server has to assume about the stored bytes must be what they really are, else the set-up is wrong
+	debug_assert_eq!(srv.ovr.unwrap_or(d.comp), d.actual);
+	let sig = |kind: &str| json!({"kind": kind, "class": class, "container": d.container, "mode": mode, "mislabelled": d.mislabelled()});
 	let detail = |extra: serde_json::Value| json!({"case": line, "request": target, "accept_encoding": accept, "source": d.id, "mode": mode, "info": extra});
 	let ans = match &resp {
 		None => "dropped".to_string(),
@@ -433,10 +514,18 @@ fn do_request(out: &mut Out, cx: &Ctx, srv: &Server, d: &SourceDef, rest: &str, 
 			if let Some((exp, listed)) = &expect {
 				match exp {
 					Expect::Coord(z, x, y) => {
-						// which stored tile does the request address?  (`--flip-y`: row counted from the other end)
+						// which stored tile is served at (z,x,y)?  The server presents the container's tiles transformed:
+						// `--flip-y` counts rows from the other end, then `--swap-xy` exchanges the axes.
 						let stored = TILES.iter().find(|c| {
 							let n = 1u64 << c.0;
-							c.0 as u64 == *z && c.1 as u64 == *x && (if srv.flip { *y < n && n - 1 - *y == c.2 as u64 } else { c.2 as u64 == *y })
+							let (mut sx, mut sy) = (c.1 as u64, c.2 as u64);
+							if srv.flip {
+								sy = n - 1 - sy;
+							}
+							if srv.swap {
+								std::mem::swap(&mut sx, &mut sy);
+							}
+							c.0 as u64 == *z && sx == *x && sy == *y
 						});
 						match stored {
 							Some(c) => {
@@ -573,7 +662,7 @@ fn reader_case(out: &mut Out, d: &SourceDef, flip: bool, c: (u8, u32, u32), rt: 
 
 fn reader_out_of_range(out: &mut Out, defs: &[SourceDef], rt: &tokio::runtime::Runtime) {
 	let coords: Vec<(u8, u32, u32)> = vec![(0, 0, 1), (1, 0, 2), (1, 2, 0), (2, 1, 4), (3, 0, 8), (3, 7, u32::MAX), (5, 0, 32), (31, 0, u32::MAX), (3, u32::MAX, u32::MAX)];
-	for d in defs.iter().filter(|d| d.fmt == "pbf" || d.fmt == "png") {
+	for d in defs.iter().filter(|d| (d.fmt == "pbf" || d.fmt == "png") && !d.mislabelled() && matches!(d.container, "versatiles" | "pmtiles" | "mbtiles")) {
 		for flip in [false, true] {
 			if d.container != "mbtiles" && !flip {
 				continue; // plain versatiles/pmtiles lookups are covered over HTTP
@@ -587,7 +676,7 @@ fn reader_out_of_range(out: &mut Out, defs: &[SourceDef], rt: &tokio::runtime::R
 
 /// requests outside the model's alphabet (raw UTF-8, control-ish escapes, huge numbers, repeated headers):
 /// the statement still demands a complete response with 200/400/404
-fn odd_requests(out: &mut Out, servers: &[Server], defs: &[SourceDef], flip_defs: &[SourceDef]) {
+fn odd_requests(out: &mut Out, servers: &[Server]) {
 	let long_digits = "9".repeat(400);
 	let rests: Vec<String> = vec![
 		"%00/0/0".to_string(),
@@ -604,8 +693,7 @@ fn odd_requests(out: &mut Out, servers: &[Server], defs: &[SourceDef], flip_defs
 		"1/0/0²".to_string(),
 	];
 	for srv in servers {
-		let pool: &[SourceDef] = if srv.flip { flip_defs } else { defs };
-		for d in pool.iter().filter(|d| d.fmt == "pbf").take(4) {
+		for d in srv.defs.iter().filter(|d| d.fmt == "pbf").take(4) {
 			for rest in &rests {
 				let target = format!("/tiles/{}/{}", d.id, rest);
 				let resp = http_get(srv.port, &target, Some("gzip, br"));
@@ -630,6 +718,35 @@ fn odd_requests(out: &mut Out, servers: &[Server], defs: &[SourceDef], flip_defs
 	}
 }
 
+/// replay: what the statement says about a canonical `<z>/<x>/<y>[.ext]` path and a header value
+fn replay_expect(rest: &str, accept: &Option<String>) -> Option<(Expect, Vec<String>)> {
+	let parts: Vec<&str> = rest.split('/').collect();
+	if parts.len() != 3 {
+		return None;
+	}
+	let num = |s: &str| if !s.is_empty() && s.len() < 11 && s.bytes().all(|b| b.is_ascii_digit()) { s.parse::<u64>().ok() } else { None };
+	let ypart = parts[2].split('.').next().unwrap_or("");
+	let (z, x, y) = (num(parts[0])?, num(parts[1])?, num(ypart)?);
+	if z > 31 || x > u32::MAX as u64 || y > u32::MAX as u64 {
+		return None;
+	}
+	let listed: Vec<String> = accept
+		.as_deref()
+		.unwrap_or("")
+		.split(',')
+		.map(|t| t.split(';').next().unwrap_or("").trim().to_ascii_lowercase())
+		.filter(|t| !t.is_empty())
+		.collect();
+	// header values outside the property's alphabet (e.g. the corpus line `brot`, which documents the substring
+	// matching) are not judged by the "listed" rule; status / content-type / body still are
+	let mut listed = listed;
+	if listed.iter().any(|t| !TOKENS.contains(&t.as_str()) && t != "*") {
+		listed.push("gzip".into());
+		listed.push("br".into());
+	}
+	Some((Expect::Coord(z, x, y), listed))
+}
+
 fn unhex_str(s: &str) -> String {
 	String::from_utf8(unhex(s)).unwrap()
 }
@@ -637,7 +754,7 @@ fn unhex_str(s: &str) -> String {
 pub fn run(args: &Args) {
 	quiet_panics();
 	let mut out = Out::new(&args.out);
-	out.rule = "raw HTTP/1.1 GET /tiles/<id>/<rest> against the freshly built `versatiles serve` in modes best / --fast / --flip-y over versatiles, pmtiles (3 stored compressions × pbf/png), mbtiles (pbf.gz, png) and the other media types; <rest> classes: stored, in-range absent, out-of-range x/y (2^z, 2^z+1, 2^32-1 …), deep zoom, z>31 / overflowing numbers, non-numeric, non-canonical (+, leading zeros, empty segments, extra parts), short / empty-segment-only paths; Accept-Encoding absent / empty / * / ordered subsets of {gzip,br,deflate,identity,zstd} in lower, upper, mixed case with positive weights; plus the whole decision table of optimize_compression (3 inputs × 8 allowed sets × 3 goals × valid/empty/truncated blob); non-trivial = a 200 response, an out-of-range or short path, or an optimize case with a valid blob and 'Uncompressed' allowed; distinct by case text".into();
+	out.rule = "raw HTTP/1.1 GET /tiles/<id>/<rest> against the freshly built `versatiles serve` in modes best / --fast / --flip-y / --swap-xy / both, and --override-input-compression {uncompressed,gzip,brotli} alone and combined with --flip-y / --swap-xy, over versatiles, pmtiles (3 stored compressions × pbf/png), tar, directory, mbtiles (pbf.gz, png), the other media types, and MISLABELLED sources (stored bytes encoded differently from what the container declares, served with the matching override); <rest> classes: stored, in-range absent, out-of-range x/y (2^z, 2^z+1, 2^32-1 …), deep zoom, z>31 / overflowing numbers, non-numeric, non-canonical (+, leading zeros, empty segments, extra parts), short / empty-segment-only paths; Accept-Encoding absent / empty / * / ordered subsets of {gzip,br,deflate,identity,zstd} in lower, upper, mixed case with positive weights; plus the whole decision table of optimize_compression (3 inputs × 8 allowed sets × 3 goals × valid/empty/truncated blob); non-trivial = a 200 response, an out-of-range or short path, or an optimize case with a valid blob and 'Uncompressed' allowed; distinct by case text".into();
 	let rt = runtime();
 	let dir = args.out.join("c05");
 	std::fs::create_dir_all(&dir).unwrap();
@@ -648,38 +765,52 @@ pub fn run(args: &Args) {
 		eprintln!("infrastructure error: {bin} does not exist");
 		std::process::exit(3);
 	}
-	// the flip server only needs a few sources
-	let flip_defs: Vec<SourceDef> = defs.iter().filter(|d| (d.fmt == "pbf" || d.fmt == "png") && (d.container == "mbtiles" || d.comp == TileCompression::Gzip)).cloned().collect();
-	let servers = vec![start_server(&bin, &defs, false, false, &dir), start_server(&bin, &defs, true, false, &dir), start_server(&bin, &flip_defs, false, true, &dir)];
-	let cx = Ctx { servers: &servers, defs: &defs };
-	let by_id: BTreeMap<String, SourceDef> = defs.iter().map(|d| (d.id.clone(), d.clone())).collect();
-	let _ = by_id;
-
-	let find_server = |fast: bool, flip: bool| servers.iter().find(|s| s.fast == fast && s.flip == flip);
-	let find_def = |comp: TileCompression, fmt: &str, flip: bool, pick: u64| -> Option<&SourceDef> {
-		let pool: Vec<&SourceDef> = (if flip { &flip_defs } else { &defs }).iter().filter(|d| d.comp == comp && d.fmt == fmt).collect();
-		if pool.is_empty() {
-			None
-		} else {
-			// resolve the container by the defs list of the full set so that the SourceDef lives long enough
-			let id = &pool[(pick % pool.len() as u64) as usize].id;
-			defs.iter().find(|d| &d.id == id)
+	// server instances.  Correctly labelled sources: best / --fast serve all of them, the transforming instances a subset.
+	let good: Vec<SourceDef> = defs.iter().filter(|d| !d.mislabelled()).cloned().collect();
+	let sub: Vec<SourceDef> = good.iter().filter(|d| (d.fmt == "pbf" || d.fmt == "png") && (d.container == "mbtiles" || d.comp == TileCompression::Gzip)).cloned().collect();
+	let mut servers = vec![
+		start_server(&bin, &good, false, false, false, None, &dir),
+		start_server(&bin, &good, true, false, false, None, &dir),
+		start_server(&bin, &sub, false, true, false, None, &dir),
+		start_server(&bin, &sub, false, false, true, None, &dir),
+		start_server(&bin, &sub, true, true, true, None, &dir),
+	];
+	// `--override-input-compression X` alone and combined with --flip-y / --swap-xy: every source whose bytes really
+	// are X-encoded, whatever its container declares (the mislabelled ones plus the correctly labelled pbf ones)
+	for x in COMPS {
+		let pool: Vec<SourceDef> = defs.iter().filter(|d| d.actual == x && (d.mislabelled() || (d.fmt == "pbf" && d.container != "mbtiles"))).cloned().collect();
+		servers.push(start_server(&bin, &pool, false, false, false, Some(x), &dir));
+		servers.push(start_server(&bin, &pool, false, true, false, Some(x), &dir));
+		servers.push(start_server(&bin, &pool, true, false, true, Some(x), &dir));
+		if args.thorough() {
+			servers.push(start_server(&bin, &pool, true, true, true, Some(x), &dir));
+			servers.push(start_server(&bin, &pool, true, false, false, Some(x), &dir));
 		}
-	};
+	}
+	let cx = Ctx { servers: &servers, defs: &defs };
 
 	if let Some(p) = &args.replay {
 		for line in std::fs::read_to_string(p).unwrap().lines() {
 			let t: Vec<&str> = line.trim().split(' ').collect();
 			match t.as_slice() {
-				["C05", "req", fast, flip, comp, fmt, _tiles, accept, rest] => {
-					let (fast, flip) = (*fast == "1", *flip == "1");
-					let accept = if *accept == "~" { None } else { Some(unhex_str(accept)) };
+				["C05", "req", ..] | ["C05", "req2", ..] => {
+					// old form: `req fast flip comp fmt tiles accept rest`
+					let (fast, flip, swap, comp, ovr, fmt, accept, rest) = if t[1] == "req" && t.len() == 9 {
+						(t[2], t[3], "0", t[4], "-", t[5], t[7], t[8])
+					} else if t[1] == "req2" && t.len() == 11 {
+						(t[2], t[3], t[4], t[5], t[6], t[7], t[9], t[10])
+					} else {
+						continue;
+					};
+					let (fast, flip, swap) = (fast == "1", flip == "1", swap == "1");
+					let ovr = if ovr == "-" { None } else { parse_comp(ovr) };
+					let accept = if accept == "~" { None } else { Some(unhex_str(accept)) };
 					let rest = unhex_str(rest);
-					let Some(srv) = find_server(fast, flip) else { continue };
-					// the container kind is not part of the model line: replay on every container that matches
-					let pool: Vec<&SourceDef> = (if flip { &flip_defs } else { &defs }).iter().filter(|d| d.comp == parse_comp(comp).unwrap() && d.fmt == *fmt).collect();
-					for d in pool {
-						do_request(&mut out, &cx, srv, d, &rest, &accept, None, "replay");
+					// the container kind is not part of the model line: replay on every matching instance and source
+					for srv in servers.iter().filter(|s| s.fast == fast && s.flip == flip && s.swap == swap && s.ovr == ovr) {
+						for d in srv.defs.iter().filter(|d| d.comp == parse_comp(comp).unwrap() && d.fmt == fmt) {
+							do_request(&mut out, &cx, srv, d, &rest, &accept, replay_expect(&rest, &accept), "replay");
+						}
 					}
 				}
 				["C05", "reader", id, flip, coord] => {
@@ -698,8 +829,6 @@ pub fn run(args: &Args) {
 		out.finish();
 		return;
 	}
-	let _ = find_def;
-
 	let mut rng = Rng::new(args.seed);
 	// A. optimize_compression, exhaustively
 	let pls: Vec<Vec<u8>> = vec![vec![0x42], rng.bytes(40), b"aaaaaaaaaaaaaaaaaaaaaaaaaaaaaaaaaaaaaaaaaaaaaaaaaaaaaaaaaaaaaaaa".to_vec()];
@@ -740,8 +869,7 @@ pub fn run(args: &Args) {
 		(Some("identity".into()), vec!["identity".into()]),
 	];
 	for srv in &servers {
-		let pool: &[SourceDef] = if srv.flip { &flip_defs } else { &defs };
-		for d in pool {
+		for d in srv.defs.iter() {
 			for (i, (rest, exp, class)) in fixed_paths.iter().enumerate() {
 				for (j, (acc, listed)) in fixed_accept.iter().enumerate() {
 					// full cross product only for stored tiles; others with two header variants
@@ -757,26 +885,25 @@ pub fn run(args: &Args) {
 	let n = args.n(5000, 60000);
 	for _ in 0..n {
 		let srv = &servers[match rng.below(10) {
-			0..=3 => 0,
-			4..=7 => 1,
-			_ => 2,
+			0..=2 => 0,
+			3..=5 => 1,
+			_ => rng.range(2, servers.len() as u64 - 1) as usize,
 		}];
-		let pool: &[SourceDef] = if srv.flip { &flip_defs } else { &defs };
-		let d = rng.pick(pool);
+		let d = rng.pick(&srv.defs);
 		let (rest, exp, class) = gen_rest(&mut rng);
 		let (acc, listed, aclass) = gen_accept(&mut rng);
 		out.count(&format!("accept_{aclass}"));
 		do_request(&mut out, &cx, srv, d, &rest, &acc, Some((exp, listed)), class);
 	}
 	// E. requests outside the model's alphabet (oracle only)
-	odd_requests(&mut out, &servers, &defs, &flip_defs);
+	odd_requests(&mut out, &servers);
 	// the servers must have survived everything
 	let mut servers = servers;
 	for s in servers.iter_mut() {
 		let alive = matches!(s.child.try_wait(), Ok(None));
-		out.oracle(alive, "C05 server process died", json!({"kind":"server_died","fast":s.fast,"flip":s.flip}), json!({"case": "-", "port": s.port}));
+		out.oracle(alive, "C05 server process died", json!({"kind":"server_died","mode":s.mode()}), json!({"case": "-", "port": s.port}));
 	}
-	out.notes.push(format!("{} tile sources per server; servers: best, --fast, --flip-y", defs.len()));
+	out.notes.push(format!("{} server instances: {}", servers.len(), servers.iter().map(|s| format!("{} ({} sources)", s.mode(), s.defs.len())).collect::<Vec<_>>().join(", ")));
 	drop(servers);
 	let _ = std::fs::remove_dir_all(&dir);
 	out.finish();
